@@ -287,6 +287,15 @@ def comp():
     return st.one_of(num_free(), num_moderate(), num_grid(), num_tiny())
 
 
+def near_identity_triple():
+    """All three components within 1e-6 degrees of a full turn: cos() rounds to exactly 1.0 while sin() does not, so the
+    matrix has a unit diagonal without being the identity."""
+    c = st.builds(lambda base, sign, m, e: base + sign * m * 10.0 ** -e,
+                  st.sampled_from([0.0, 0.0, 360.0, -360.0]), st.sampled_from([1, -1, 0]),
+                  st.floats(1, 10, exclude_max=True), st.sampled_from([7, 7, 7, 8, 9, 12]))
+    return st.tuples(c, c, c).map(list)
+
+
 def angle_triple():
     return st.one_of(
         st.tuples(num_free(), num_free(), num_free()),
@@ -294,6 +303,7 @@ def angle_triple():
         st.tuples(num_grid(), num_grid(), num_grid()),
         st.tuples(pole_pitch(), comp(), comp()),
         st.tuples(comp(), comp(), comp()),
+        near_identity_triple(),
     ).map(list)
 
 
